@@ -24,7 +24,7 @@ def handleC19 (j : Json) : Except String Json := do
         lossTotal L (calls.getD jx []) (bs.getD jx ⟨[]⟩))
       let vobs := ld.ob.calls.map (fun cl => cl.batch.getD ⟨[]⟩)
       pure (Jinns.Holds.holdsC19VL c pg.n pg.θ0 pat early expected vobs bs calls rej ld.ob.obs)
-  pure (answer ld ["iters", "batches", "params", "loss_hist", "tracked", "crit_hist", "best", "calls"] holds)
+  pure (answer ld ["iters", "params", "loss_hist", "term_hist", "tracked", "crit_hist", "best", "calls"] holds)
 
 def opsC19 : List (String × (Json → Except String Json)) := [("c19", handleC19)]
 
